@@ -362,4 +362,29 @@ Proof.
   now rewrite Z.div_mul by lia.
 Qed.
 
+(** Basis of the decoder's "trivial literal" shortcut (HTreeGroup.IsTrivialLiteral /
+    LiteralARB): a code with exactly one used symbol — whatever its transmitted
+    length — decodes to that symbol without consuming a bit, so when the red, blue
+    and alpha codes of a group are such codes a literal costs only its green code
+    word and its other three channels are constants of the group. *)
+Lemma one_symbol_code lens t l0 s0 :
+  tree_of_lens lens = Ok t -> lens_items lens = [(l0, s0)] -> forall s, read_symbol t s = Ok (s0, s).
+Proof.
+  intros Ht Hi s. unfold tree_of_lens in Ht. destruct (negb (lens_in_range lens)); [discriminate|].
+  rewrite Hi in Ht. injection Ht as <-. reflexivity.
+Qed.
+
+Theorem trivial_literal_eq : forall lr lb la tr tb ta l1 r l2 b l3 a,
+  tree_of_lens lr = Ok tr -> tree_of_lens lb = Ok tb -> tree_of_lens la = Ok ta ->
+  lens_items lr = [(l1, r)] -> lens_items lb = [(l2, b)] -> lens_items la = [(l3, a)] ->
+  forall s,
+  ('(r', s1) <- read_symbol tr s ;; '(b', s2) <- read_symbol tb s1 ;; '(a', s3) <- read_symbol ta s2 ;;
+   Ok (a', r', b', s3)) = Ok (a, r, b, s).
+Proof.
+  intros lr lb la tr tb ta l1 r l2 b l3 a Hr Hb Ha Ir Ib Ia s.
+  rewrite (one_symbol_code lr tr l1 r Hr Ir). cbn [bind].
+  rewrite (one_symbol_code lb tb l2 b Hb Ib). cbn [bind].
+  rewrite (one_symbol_code la ta l3 a Ha Ia). reflexivity.
+Qed.
+
 Transparent build.
